@@ -1455,7 +1455,7 @@ class RawAlgorithmsMixIn:
             y_data[0,p,...] = numpy.linalg.solve(A_data[0,p,...], x_data[0,p,...])
 
         # d = 1,...,D-1
-        dtype = numpy.promote_types(A_data.dtype, x_data.dtype)
+        dtype = numpy.promote_types(numpy.promote_types(A_data.dtype, x_data.dtype), y_data.dtype)
         tmp = numpy.zeros((M,K),dtype=dtype)
         for d in range(1, D):
             for p in range(P):
